@@ -1,0 +1,28 @@
+//go:build verif
+
+package luahost
+
+import lua "github.com/yuin/gopher-lua"
+
+// Verification hooks (add-only, build tag verif): direct access to the Lua state pool so that the harness can
+// observe its size and drive getState / putState / createChannel step by step.
+
+// VerifPoolLen returns the number of pooled (free) Lua states.
+func (h *Host) VerifPoolLen() int {
+	h.pool.Lock()
+	defer h.pool.Unlock()
+	return len(h.pool.states)
+}
+
+// VerifPooled returns a copy of the pool's free list, bottom first.
+func (h *Host) VerifPooled() []*lua.LState {
+	h.pool.Lock()
+	defer h.pool.Unlock()
+	return append([]*lua.LState{}, h.pool.states...)
+}
+
+// VerifGetState is statePool.getState.
+func (h *Host) VerifGetState() (*lua.LState, error) { return h.pool.getState() }
+
+// VerifPutState is statePool.putState.
+func (h *Host) VerifPutState(ls *lua.LState) { h.pool.putState(ls) }
